@@ -151,14 +151,14 @@ def check_isnone(run, F):
             ok = False
             if never:
                 ok = leaf == 'PANIC' or panics(ms['none'])
-            elif N in ('(self != self)',) or opt:
+            elif N in ('(self != self)', 'self.is_nan()') or opt:
                 ok = leaf == 'NULL'
             elif 'str:None' in N:
                 ok = leaf in ('str:None', 'str:None.to_string()')
             elif N == '!VALID(self)':
                 ok = leaf is not None and leaf.endswith('nat()')
-            elif N == 'self.is_empty()':
-                ok = leaf == 'Vec::new()'
+            elif N in ('self.is_empty()', '(0 == self.len())', 'self.len() is 0'):
+                ok = leaf in ('Vec::new()', 'vec::Vec::new()', 'Default::default()')
             run.ob('NUL.coherent', ms['none'], key + 'none() is recognised by is_none', ok,
                    ms['none'].loc(), 'none() = %s, is_none = %s' % (leaf, N))
         if 'from_inner' in ms:
